@@ -24,6 +24,14 @@ pub fn noop_wake_by_ref(_: &Waker) {}
 pub fn noop_waker_drop(_: &mut Waker) {}
 #[cfg(kani)]
 pub fn noop_atomic_waker_wake(_: &futures::task::AtomicWaker) {}
+#[cfg(kani)]
+pub fn noop_atomic_waker_register(_: &futures::task::AtomicWaker, _: &Waker) {}
+/// tracing's `log` fallback (a formatted line per span event when no subscriber is installed) and
+/// field recording: logging environment.
+#[cfg(kani)]
+pub fn noop_span_log(_: &tracing::Span, _: &str, _: log::Level, _: std::fmt::Arguments<'_>) {}
+#[cfg(kani)]
+pub fn noop_record_all<'a>(s: &'a tracing::Span, _: &tracing::field::ValueSet<'_>) -> &'a tracing::Span { s }
 /// Without a subscriber `Span::set_context` has no effect.
 #[cfg(kani)]
 pub fn stub_set_context(_: &tracing::Span, _: &context::Context) {}
@@ -229,6 +237,9 @@ macro_rules! chan_harnesses {
             #[cfg_attr(kani, kani::stub(core::task::wake::Waker::wake_by_ref, super::verif_overlay_chan::noop_wake_by_ref))]
             #[cfg_attr(kani, kani::stub(<core::task::wake::Waker as core::ops::Drop>::drop, super::verif_overlay_chan::noop_waker_drop))]
             #[cfg_attr(kani, kani::stub(futures::task::AtomicWaker::wake, super::verif_overlay_chan::noop_atomic_waker_wake))]
+            #[cfg_attr(kani, kani::stub(futures::task::AtomicWaker::register, super::verif_overlay_chan::noop_atomic_waker_register))]
+            #[cfg_attr(kani, kani::stub(tracing::span::Span::log, super::verif_overlay_chan::noop_span_log))]
+            #[cfg_attr(kani, kani::stub(tracing::span::Span::record_all, super::verif_overlay_chan::noop_record_all))]
             #[cfg_attr(kani, kani::stub(<tracing::Span as crate::context::SpanExt>::set_context, super::verif_overlay_chan::stub_set_context))]
             #[cfg_attr(kani, kani::stub(<crate::trace::Context as core::convert::TryFrom<&tracing::Span>>::try_from, super::verif_overlay_chan::stub_trace_try_from))]
             #[cfg_attr(kani, kani::stub(crate::trace::Context::new_child, super::verif_overlay_chan::stub_new_child))]
